@@ -80,6 +80,7 @@ fn one_call(max_attempts: usize, mode: u8, steps: usize) {
     // ---- bounded number of attempts, spacing
     assert!(st().spawned as usize <= max_attempts && mon().calls as usize <= max_attempts, "[C12.bounded_attempts] at most max_hedged_attempts inner calls are started");
     assert!(mon().calls == 0 || mon().last_req == req, "[C12.same_request] every attempt carries the request");
+    assert!((mon().unready_calls as usize) < max_attempts, "[C20.hedge_primary_ready] the primary attempt goes to the instance on which readiness was observed");
     let mut k = 1;
     while k < st().spawned as usize {
         if mode == 0 {
@@ -125,6 +126,29 @@ fn one_call(max_attempts: usize, mode: u8, steps: usize) {
     kani::cover!(matches!(out, Some(Ok(_))) && st().spawned as usize == max_attempts, "success with all attempts started");
     drop(fut);
     model::shutdown();
+    std::mem::forget(h);
+}
+
+/// KNOWN FINDING witness (C20 readiness): hedged attempts are issued on clones that never
+/// observed readiness (the primary uses the ready instance).
+#[kani::proof]
+#[kani::unwind(7)]
+#[kani::stub(std::time::Instant::now, tokio::model::std_instant_now)]
+#[kani::stub(catch_unwind, crate::verif_kani::env::catch_unwind_stub)]
+fn c20_hedges_unready() {
+    let cfg = HedgeConfig { name: None, max_hedged_attempts: 2, delay: HedgeDelay::Immediate, listeners: tower_resilience_core::EventListeners::new() };
+    let mut script = svc::any_script();
+    script.never = true;
+    let mut h = Hedge::new(Inner::new(script), cfg);
+    let _ = svc::poll_ready_once(&mut h);
+    let mut fut = h.call(kani::any());
+    let _ = svc::poll_once(fut.as_mut());
+    model::poll_task(0);
+    model::poll_task(1);
+    assert!(mon().calls == 2, "[C12.parallel_all_at_once] in parallel mode all attempts start at once");
+    assert!(mon().unready_calls <= 1, "[C20.hedge_primary_ready] the primary attempt goes to the instance on which readiness was observed");
+    assert!(mon().unready_calls == 0, "[C20.hedge_attempts_unready] every hedged attempt goes to an instance on which readiness was observed");
+    std::mem::forget(fut);
     std::mem::forget(h);
 }
 
